@@ -123,13 +123,13 @@ class Ctx:
             raise ToolError("TLC timed out on %s (%ds)" % (module, timeout))
         text = "\n".join(rest)
         gen = dist = 0
-        m = re.search(r"(\d+) states generated, (\d+) distinct states found", text.replace(",", ""))
+        m = re.search(r"([\d,]+) states generated, ([\d,]+) distinct states found", text)
         if m:
-            gen, dist = int(m.group(1)), int(m.group(2))
+            gen, dist = int(m.group(1).replace(",", "")), int(m.group(2).replace(",", ""))
         if sim:
-            m = re.search(r"The number of states generated: (\d+)", text.replace(",", ""))
+            m = re.search(r"The number of states generated: ([\d,]+)", text)
             if m:
-                gen = dist = int(m.group(1))
+                gen = dist = int(m.group(1).replace(",", ""))
         viol = None
         m = re.search(r"Invariant (\S+) is violated", text)
         if m:
@@ -269,9 +269,9 @@ class Ctx:
         elif "Model checking completed. No error has been found." not in text:
             raise ToolError("trace validation of %s failed:\n%s" % (name, "\n".join(text.splitlines()[-25:])))
         gen = 0
-        mm = re.search(r"(\d+) states generated, (\d+) distinct states found", text.replace(",", ""))
+        mm = re.search(r"([\d,]+) states generated, ([\d,]+) distinct states found", text)
         if mm:
-            gen = int(mm.group(1))
+            gen = int(mm.group(1).replace(",", ""))
         self.cov["traces"].append({"name": name, "module": module, "events": n_events, "runs": n_runs,
                                    "accepted": what is None, "wall_s": round(dt, 1)})
         if what is None:
